@@ -42,6 +42,7 @@ impl Parse for Input {
     fn parse(input: ParseStream) -> syn::Result<Self> {
         let attrs = input.call(syn::Attribute::parse_outer)?;
         let vis = input.parse()?;
+        let after_vis = input.fork();
 
         let unsafety: Option<syn::token::Unsafe> = input.parse()?;
         let auto_token: Option<syn::token::Auto> = input.parse()?;
@@ -82,12 +83,14 @@ impl Parse for Input {
                 // a leading `unsafe` was consumed by the trait look-ahead above
                 fn_sig.unsafety = unsafety;
             }
+            let fn_sig_tokens = verbatim_between(after_vis, input);
             let fn_body = input.parse()?;
 
             Ok(Input::Fn(InputFn {
                 fn_attrs: attrs,
                 fn_vis: vis,
                 fn_sig,
+                fn_sig_tokens,
                 fn_body,
             }))
         }
@@ -98,6 +101,9 @@ pub struct InputFn {
     pub fn_attrs: Vec<syn::Attribute>,
     pub fn_vis: syn::Visibility,
     pub fn_sig: syn::Signature,
+    /// The signature as it was written: the fn is passed through token for token
+    /// (`syn` prints `fn f<>() where {}` without `<>` and `where`, and splits `t.0.1`)
+    pub fn_sig_tokens: proc_macro2::TokenStream,
     // don't try to parse fn_body, just pass through the tokens:
     pub fn_body: proc_macro2::TokenStream,
 }
@@ -163,13 +169,14 @@ impl ToTokens for ModItem {
                 let InputFn {
                     fn_attrs,
                     fn_vis,
-                    fn_sig,
+                    fn_sig_tokens,
                     fn_body,
+                    ..
                 } = input_fn.as_ref();
                 for attr in fn_attrs {
                     push_tokens!(stream, attr);
                 }
-                push_tokens!(stream, fn_vis, fn_sig, fn_body);
+                push_tokens!(stream, fn_vis, fn_sig_tokens, fn_body);
             }
             ModItem::Unknown(unknown) => {
                 unknown.to_tokens(stream);
@@ -220,13 +227,14 @@ impl ToTokens for ImplItem {
                 let InputFn {
                     fn_attrs,
                     fn_vis,
-                    fn_sig,
+                    fn_sig_tokens,
                     fn_body,
+                    ..
                 } = input_fn.as_ref();
                 for attr in fn_attrs {
                     push_tokens!(stream, attr);
                 }
-                push_tokens!(stream, fn_vis, fn_sig, fn_body);
+                push_tokens!(stream, fn_vis, fn_sig_tokens, fn_body);
             }
             ImplItem::Unknown(unknown) => {
                 unknown.to_tokens(stream);
@@ -301,11 +309,13 @@ impl Parse for ModItem {
                     tokens: verbatim_between(unknown, input),
                 }))
             } else {
+                let fn_sig_tokens = verbatim_between(unknown, input);
                 let fn_body = parse_matched_braces_or_ending_semi(input)?;
                 Ok(ModItem::PubFn(Box::new(InputFn {
                     fn_attrs: attrs,
                     fn_vis: vis,
                     fn_sig: sig,
+                    fn_sig_tokens,
                     fn_body,
                 })))
             }
@@ -371,11 +381,13 @@ impl Parse for ImplItem {
                     tokens: verbatim_between(unknown, input),
                 }))
             } else {
+                let fn_sig_tokens = verbatim_between(unknown, input);
                 let fn_body = parse_matched_braces_or_ending_semi(input)?;
                 Ok(ImplItem::Fn(Box::new(InputFn {
                     fn_attrs: attrs,
                     fn_vis: vis,
                     fn_sig: sig,
+                    fn_sig_tokens,
                     fn_body,
                 })))
             }
